@@ -20,5 +20,6 @@ SLOW = ()
 TRUSTED_BASE = ["pyvc VC generator; z3/cvc5", "multiprocessing Queue/Event/Process contracts of DESIGN.md 3.4 (rely conditions)"]
 ASSUMPTIONS = ["no scheduler fairness and no termination is assumed or proved (liveness is outside this technique)",
                "the multi_tan worker guarantee is proved under C09 (contracts/multitan.py); the multi_wcs worker body (external reprojection) is covered by the bounded tier only"]
-EXPLANATION = ("producer traces (one put per serial item, of that very item, from the same enumeration; close, flush, flag, join) "
-               "and worker guarantees (one callback per item, exit only on time-out with the flag set) proved under the queue contract")
+EXPLANATION = ("producer traces of all five stages (one put per serial item, of that very item, from the same enumeration; right "
+               "worker target and arguments; close, flush, flag, join) and worker guarantees (one processing per item, exit only on a "
+               "time-out whose flag read preceded the receive) proved under the queue contract")
